@@ -2,6 +2,7 @@ package constructor
 
 import (
 	"fmt"
+	"go/token"
 	"strings"
 
 	"github.com/lopolopen/shoot/internal/transfer"
@@ -47,7 +48,12 @@ func (g *Generator) makeNew() {
 		if g.hasNew && !f.isNew {
 			continue
 		}
-		nameMap[f.name] = transfer.ToCamelCase(f.name)
+		param := transfer.ToCamelCase(f.name)
+		if token.IsKeyword(param) {
+			//a field named Type, Func, Range... must not become the parameter `type`
+			param += "_"
+		}
+		nameMap[f.name] = param
 	}
 
 	newlst := newParamsList(g.fields, nameMap)
